@@ -475,6 +475,32 @@ def rule_declarations(ctx):
     ctx.check(R, "update_declarations/parameters-all-versions", okp, "every version in the parameter's version range gets a declaration", site(SI, f))
     okl = sgrep.has(f["body"], "env.get_version_range(__n).unwrap_or(0..1)") and (sgrep.has(f["body"], "for __v in __vs { __inner }", None) )
     ctx.check(R, "update_declarations/locals-all-versions", okl, "", site(SI, f))
+    # ... and the loop that declares the versions of a local runs over that whole range: not a filtered, truncated or
+    # otherwise narrowed copy of it (a version that is only read - the initial version of an array - needs its declaration too)
+    from pathcond import find_path
+
+    for a in adds:
+        path = find_path(f["body"], a) or []
+        loops = [parent for parent, _s, _c in path if parent["k"] == "For"]
+        if not loops or "with_version" not in render(a["args"][0]) and not any("with_version" in render(v) for k_, v in envl.items() if k_ in render(a["args"][0])):
+            continue
+        lp = loops[-1]
+        it = strip(lp["iter"])
+        while it["k"] in ("Ref",) or (it["k"] == "MethodCall" and it["method"] in ("iter", "into_iter", "clone") and not it["args"]):
+            it = strip(it.get("e") or it.get("recv"))
+        if "parameters" in render(it) or any(render(strip(l2["iter"])).replace(" ", "").startswith("parameters") for l2 in loops[:-1]):
+            continue
+        src = it
+        narrowed = []
+        if it["k"] == "Path":
+            defs = [l_ for l_ in walk(f["body"]) if l_["k"] == "Local" and l_["pat"]["k"] == "PIdent" and l_["pat"]["name"] == it["path"] and l_.get("init") is not None]
+            src = strip(defs[-1]["init"]) if defs else it
+            for m_ in walk(f["body"]):
+                if m_["k"] == "MethodCall" and render(strip(m_["recv"])) == it["path"] and m_["method"] not in ("sort", "sort_unstable", "iter", "into_iter", "len", "is_empty", "clone"):
+                    narrowed.append(m_["method"])
+        env_w = {k_: v_ for k_, v_ in envl.items() if it["k"] != "Path" or k_ != it["path"]}
+        whole = any(sgrep.match(sgrep.pattern(pt), src, {}, env_w) for pt in ("env.get_version_range(__n).unwrap_or(0..1).collect()", "env.get_version_range(__n).unwrap_or(0..1)", "env.get_version_range(__n).unwrap_or(0..1).collect::<Vec<_>>()"))
+        ctx.check(R, "update_declarations/local-versions/whole-range", whole and not narrowed, "the versions declared are those of `%s`%s" % (render(src)[:120], (", then changed by %s" % narrowed) if narrowed else ""), site(SI, lp))
     for a in adds:
         cs = [fact_str(c).replace(" ", "") for c in (conditions_to(f["body"], a) or [])]
         arg = render(a["args"][0]).replace(" ", "")
